@@ -554,6 +554,8 @@ func (c *Ctx) r089(pk *packages.Package) {
 		type cursor struct {
 			o    types.Object
 			loop *ast.ForStmt
+			defs []*flow.Node // for a copy of a cursor: the assignments that take the copy
+			of   types.Object
 		}
 		var cursors []cursor
 		ast.Inspect(fd.Body, func(q ast.Node) bool {
@@ -582,19 +584,53 @@ func (c *Ctx) r089(pk *packages.Package) {
 					return true
 				})
 				if adv && o != nil {
-					cursors = append(cursors, cursor{o, fs})
+					cursors = append(cursors, cursor{o: o, loop: fs})
 				}
 				return true
 			})
 			return true
 		})
 		lc := newLinCtx(c, info, g)
+		// copies of a cursor (`first = digit`) are positions found by the same scan
+		for _, cu := range append([]cursor(nil), cursors...) {
+			if frame[cu.o] {
+				continue // the left edge of the result is maintained by the rounding itself
+			}
+			copies := map[types.Object][]*flow.Node{}
+			for _, y := range g.Nodes {
+				as, ok := y.Stmt.(*ast.AssignStmt)
+				if !ok || y.Kind != flow.KStmt || len(as.Lhs) != 1 || len(as.Rhs) != 1 {
+					continue
+				}
+				rid, ok := ast.Unparen(as.Rhs[0]).(*ast.Ident)
+				if !ok || info.Uses[rid] != cu.o {
+					continue
+				}
+				lid, ok := as.Lhs[0].(*ast.Ident)
+				if !ok {
+					continue
+				}
+				lo := info.Defs[lid]
+				if lo == nil {
+					lo = info.Uses[lid]
+				}
+				if lo != nil && lo != cu.o {
+					copies[lo] = append(copies[lo], y)
+				}
+			}
+			for lo, defs := range copies {
+				cursors = append(cursors, cursor{o: lo, loop: cu.loop, defs: defs, of: cu.o})
+			}
+		}
 		for _, cu := range cursors {
 			if frame[cu.o] {
 				continue
 			}
 			nCur++
 			construct := fmt.Sprintf("minify.%s/scan cursor %s", name, c.P.NameOf(cu.o))
+			if cu.defs != nil {
+				construct = fmt.Sprintf("minify.%s/copy %s of scan cursor %s", name, c.P.NameOf(cu.o), c.P.NameOf(cu.of))
+			}
 			// advance nodes of this loop
 			var advs []*flow.Node
 			for _, d := range lc.assign[cu.o] {
@@ -608,7 +644,17 @@ func (c *Ctx) r089(pk *packages.Package) {
 					advs = append(advs, y)
 				}
 			}
+			if cu.defs != nil {
+				advs = cu.defs
+			}
 			plainAssign := func(x *flow.Node) bool {
+				if cu.defs != nil {
+					for _, d := range cu.defs {
+						if d == x {
+							return false
+						}
+					}
+				}
 				for _, d := range lc.assign[cu.o] {
 					if d == x {
 						if _, inc := d.Stmt.(*ast.IncDecStmt); inc && d.Stmt.Pos() >= cu.loop.Pos() && d.Stmt.End() <= cu.loop.End() {
@@ -1041,4 +1087,167 @@ func (c *Ctx) DimensionSurvey() {
 			})
 		}
 	}
+}
+
+// R08.12: giving up after digits were rounded in place is excluded beforehand.
+func (c *Ctx) r0812(pk *packages.Package) {
+	const rule = "R08.12"
+	c.R.Rule(rule, "minify.Number rounds the digits in place and may afterwards still give up — `return num` when the exponent would overflow. Handing the caller's slice back after it was written to returns a different number (`.0155e-9223372036854775808` with two digits → `.0165e-…`), so the give-up that can follow a write has to be impossible there: the guard that returns num before the first in-place write bounds the parsed exponent against every one of the limits (MinInt, MaxInt) that a give-up condition reachable after a write mentions")
+	info := pk.TypesInfo
+	fd := c.fn(rule, pk, "Number")
+	if fd == nil {
+		return
+	}
+	g := c.graph(pk, fd)
+	var param types.Object
+	if len(fd.Type.Params.List) > 0 && len(fd.Type.Params.List[0].Names) > 0 {
+		param = info.Defs[fd.Type.Params.List[0].Names[0]]
+	}
+	isWrite := func(x *flow.Node) bool {
+		if x.Kind != flow.KStmt {
+			return false
+		}
+		var lhs []ast.Expr
+		switch s := x.Stmt.(type) {
+		case *ast.IncDecStmt:
+			lhs = []ast.Expr{s.X}
+		case *ast.AssignStmt:
+			lhs = s.Lhs
+		}
+		for _, l := range lhs {
+			if ix, ok := l.(*ast.IndexExpr); ok {
+				if b, ok := ast.Unparen(ix.X).(*ast.Ident); ok && info.Uses[b] == param {
+					return true
+				}
+			}
+		}
+		return false
+	}
+	isGiveUp := func(x *flow.Node) *ast.ReturnStmt {
+		rs := retStmt(x)
+		if rs == nil || len(rs.Results) != 1 {
+			return nil
+		}
+		if id, ok := ast.Unparen(rs.Results[0]).(*ast.Ident); ok && info.Uses[id] == param {
+			return rs
+		}
+		return nil
+	}
+	limitsOf := func(rs *ast.ReturnStmt) map[string]bool {
+		out := map[string]bool{}
+		// the condition of the if statement whose body is the return
+		for p := c.P.Parent(rs); p != nil; p = c.P.Parent(p) {
+			if ifs, ok := p.(*ast.IfStmt); ok {
+				ast.Inspect(ifs.Cond, func(z ast.Node) bool {
+					if id, ok := z.(*ast.Ident); ok {
+						if k, isK := info.Uses[id].(*types.Const); isK && k.Pkg() == pk.Types && (k.Name() == "MinInt" || k.Name() == "MaxInt") {
+							out[k.Name()] = true
+						}
+					}
+					return true
+				})
+				break
+			}
+			if _, ok := p.(*ast.FuncDecl); ok {
+				break
+			}
+		}
+		return out
+	}
+	var writes []*flow.Node
+	for _, x := range g.Nodes {
+		if isWrite(x) {
+			writes = append(writes, x)
+		}
+	}
+	// the if statement that encloses a node's expression / statement
+	enclosingIf := func(n ast.Node) *ast.IfStmt {
+		for p := c.P.Parent(n); p != nil; p = c.P.Parent(p) {
+			if ifs, ok := p.(*ast.IfStmt); ok {
+				return ifs
+			}
+			if _, ok := p.(*ast.FuncDecl); ok {
+				return nil
+			}
+		}
+		return nil
+	}
+	isGiveUpBody := func(b *ast.BlockStmt) bool {
+		if len(b.List) != 1 {
+			return false
+		}
+		rs, ok := b.List[0].(*ast.ReturnStmt)
+		if !ok || len(rs.Results) != 1 {
+			return false
+		}
+		id, ok := ast.Unparen(rs.Results[0]).(*ast.Ident)
+		return ok && info.Uses[id] == param
+	}
+	limitsIn := func(e ast.Expr) map[string]bool {
+		out := map[string]bool{}
+		ast.Inspect(e, func(z ast.Node) bool {
+			if id, ok := z.(*ast.Ident); ok {
+				if k, isK := info.Uses[id].(*types.Const); isK && k.Pkg() == pk.Types && (k.Name() == "MinInt" || k.Name() == "MaxInt") {
+					out[k.Name()] = true
+				}
+			}
+			return true
+		})
+		return out
+	}
+	_ = limitsOf
+	nAfter := 0
+	missing := map[string]string{}
+	checked := map[string]bool{}
+	for _, w := range writes {
+		// give-ups this write can reach
+		need := map[string]string{}
+		for _, x := range g.Nodes {
+			rs := isGiveUp(x)
+			if rs == nil {
+				continue
+			}
+			x := x
+			if g.Path(flow.Search{From: []*flow.Node{w}, Goal: func(q *flow.Node) bool { return q == x }}) == nil {
+				continue
+			}
+			nAfter++
+			if ifs := enclosingIf(rs); ifs != nil {
+				for l := range limitsIn(ifs.Cond) {
+					need[l] = c.pos(rs)
+				}
+			}
+		}
+		if len(need) == 0 {
+			continue
+		}
+		// the nearest guard in front of the write: an if statement whose body gives up and whose failure dominates the write
+		have := map[string]bool{}
+		for _, f := range g.DomFacts(w) {
+			if f.Value || f.Test.Kind != flow.KCond {
+				continue
+			}
+			ifs := enclosingIf(f.Test.Expr)
+			if ifs == nil || !isGiveUpBody(ifs.Body) || !(ifs.Cond.Pos() <= f.Test.Expr.Pos() && f.Test.Expr.End() <= ifs.Cond.End()) {
+				continue
+			}
+			have = limitsIn(ifs.Cond)
+			break
+		}
+		for l, at := range need {
+			checked[l] = true
+			if !have[l] {
+				missing[l] = at + " (write at " + c.pos(w.Ast()) + ")"
+			}
+		}
+	}
+	for _, l := range []string{"MaxInt", "MinInt"} {
+		if !checked[l] {
+			continue
+		}
+		at, bad := missing[l]
+		c.R.Check(!bad, rule, "minify.Number/give-up after an in-place write is excluded for "+l, "-", "the guard in front of the rounding bounds the exponent against "+l,
+			"after digits were rounded in place the function can still return its argument (the give-up at "+at+" tests against "+l+"), and the guard nearest in front of the write does not bound the exponent against "+l+": the caller gets its own slice back with some digits incremented — another number")
+	}
+	c.R.Floor(rule, "give-ups reachable after an in-place write", nAfter, 1)
 }
